@@ -327,7 +327,7 @@ func c08Burst(modes []c04Mode, maxN int) func(x *X) {
 func c08Unusual(modes []c04Mode) func(x *X) {
 	return func(x *X) {
 		mode := modes[x.Choose(len(modes))]
-		script := x.Choose(6)
+		script := x.Choose(8)
 		shared := x.Choose(2) == 1
 		so := mode.so
 		so.shared = shared
@@ -358,6 +358,20 @@ func c08Unusual(modes []c04Mode) func(x *X) {
 				cl.WriteMessage(mkReq(enc, 7, upClose, "", nil))
 			}
 			// (script 5: nothing more — the connection is dropped with the refused stream still registered)
+		case 6, 7:
+			// handlers that close their own streams (from the handler's goroutine) while the client
+			// keeps opening streams and sending on the same connection; script 7 reuses a stream id
+			for i := 0; i < 3; i++ {
+				id := uint64(7 + i)
+				if script == 7 {
+					id = 7
+				}
+				cl.WriteMessage(mkReq(enc, id, upOpen, "StreamSvc.CloseSelf", nil))
+				cl.WriteMessage(mkReq(enc, id, upData, "", streamMsg(0x31, i)))
+				if script == 7 {
+					cl.WriteMessage(mkReq(enc, id, upClose, "", nil))
+				}
+			}
 		}
 		vs.Quiesce()
 		if !c08Probe(x, cl, enc, 999, 0x61) && !cl.p.closed[1] && !cl.p.dead {
@@ -374,6 +388,10 @@ func c08Unusual(modes []c04Mode) func(x *X) {
 
 func init() {
 	register(&Scenario{Prop: "C08", Name: "c08/unusual-wellformed", Quick: []Bound{{1, 0}, {2, 0}}, Thorough: []Bound{{3, 0}}, Body: c08Unusual(c08SrvModes), BudgetQ: 20})
+	// the same with the map-race detector (shim/vsync/race.go): a map of the library touched by two goroutines
+	// without synchronisation is the runtime's "fatal error: concurrent map writes" waiting to happen
+	register(&Scenario{Prop: "C08", Name: "c08/unusual-wellformed-map-races", Quick: []Bound{{1, 0}}, Thorough: []Bound{{2, 0}}, Body: c08Unusual(c08SrvModes), MapRaces: true, BudgetQ: 20})
+	register(&Scenario{Prop: "C08", Name: "c08/burst-disconnect-map-races", Quick: []Bound{{1, 0}}, Thorough: []Bound{{2, 0}}, Body: c08Burst(c08SrvModes, 3), MapRaces: true, BudgetQ: 20})
 	register(&Scenario{Prop: "C08", Name: "c08/server-frames", Quick: []Bound{{0, 0}}, Thorough: []Bound{{0, 0}}, Body: c08Server(false, c08SrvModes), MinHB: 1, BudgetQ: 40})
 	register(&Scenario{Prop: "C08", Name: "c08/server-frames-all-values", Quick: []Bound{}, Thorough: []Bound{{0, 0}}, Body: c08Server(true, c08SrvModes[:1]), MinHB: 1, BudgetT: 400})
 	register(&Scenario{Prop: "C08", Name: "c08/client-frames", Quick: []Bound{{0, 0}}, Thorough: []Bound{{0, 0}}, Body: c08Client(false), MinHB: 1})
